@@ -72,6 +72,71 @@ func init() {
 	})
 
 	Register(&Family{
+		// a terminal notification issued by the producer itself - from one of several goroutines, through
+		// every constructor flavour - must close the subscription and release the source once the call returned
+		Name:   "C03.term",
+		Props:  []string{"C03", "C13"},
+		Weight: 2,
+		Gen: func(g *Gen) *Scn {
+			sc := &Scn{Family: "C03.term"}
+			ctor := g.Pick("unsafe", "safe", "default", "eventually", "eventually")
+			sc.Sub = ctor
+			prods := 1
+			if ctor != "unsafe" {
+				prods = g.Range(1, 3)
+			}
+			sc.Sources = []SrcSpec{{Mode: "async", Ctor: ctor, Producers: prods, TermFirst: prods > 1 && g.Bool(0.6), Script: genScript(g, 10, 3, "CE", false)}}
+			ns := g.PickInt(0, 0, 1, 2)
+			for i := 0; i < ns; i++ {
+				sc.Stages = append(sc.Stages, StageSpec{Op: g.Pick("Map", "Tap", "Filter", "Scan", "StartWith", "TapOnFinalize", "TakeLast", "DefaultIfEmpty", "MaterializeDematerialize"), P: []int{1}})
+			}
+			sc.SetInt("slow", g.Intn(2))
+			sc.SetInt("raw", g.Intn(2))
+			return sc
+		},
+		Run: func(e *Env) {
+			o, srcs := e.Pipeline()
+			rec := e.NewRec("o")
+			if e.Sc.Int("slow", 0) == 1 {
+				// a consumer that yields inside Next keeps the producer lock busy while the others arrive
+				rec.OnNextHook = func(r *Rec, v int) { e.Yield(); e.Yield() }
+			}
+			h := e.Subscribe(o, rec.Obs(), nil)
+			e.SettleFor(100 * Unit)
+			if e.K.Capped() {
+				return
+			}
+			s := srcs[0]
+			termReturned := false
+			for _, c := range s.Calls {
+				if c.Return == 0 {
+					return // a producer call is still in flight: nothing to judge yet
+				}
+				if c.Step.K != "N" && c.Panic == nil {
+					termReturned = true
+				}
+			}
+			if !termReturned {
+				return
+			}
+			e.Probe("producer-terminated")
+			if !h.Ret() || h.Sub() == nil {
+				e.Violate("C03", "subscribe-blocked-after-terminal", "the producer's terminal call returned but Subscribe has not")
+				return
+			}
+			if !h.Sub().IsClosed() {
+				e.Violate("C03", "open-after-terminal", fmt.Sprintf("every producer call returned, one of them a terminal notification, but the subscription is still open (trace %s)", rec.Trace()))
+			}
+			if s.Live != 0 || s.Teardowns != 1 {
+				e.Violate("C03", "source-not-released", fmt.Sprintf("the producer's terminal call returned but the source teardown ran %d times (live=%d, trace %s)", s.Teardowns, s.Live, rec.Trace()))
+			}
+			if rec.Terminal() == 0 {
+				e.Violate("C03", "terminal-lost", fmt.Sprintf("the producer's terminal call returned but the observer never received a terminal notification (trace %s)", rec.Trace()))
+			}
+		},
+	})
+
+	Register(&Family{
 		Name:   "C03.race",
 		Props:  []string{"C03", "C13"},
 		Weight: 3,
